@@ -348,12 +348,38 @@ def judge(plan, segments, queries, fresh):
 
   st["states"] = sorted(st["states"])
   digest_events = [_strip_event(ev) for ev in events]
-  digest_events.append({"fresh": [f["V"] for f in fresh]})
+  digest_events.append({"fresh": [[_canon_snap(x) for x in f["V"]]
+                                  for f in fresh]})
   return digest_events, _dedup(viol), st
 
 
+def _canon_snap(sn):
+  """Factor records as sorted integer lists (their text order depends on
+  PYTHONHASHSEED, S8)."""
+  if not isinstance(sn, dict) or "infos" not in sn:
+    return sn
+  infos = []
+  for name, text in sn["infos"]:
+    if name in M.FACTOR_INFOS:
+      try:
+        infos.append([name, sorted(M.parse_factors(text))])
+        continue
+      except Exception:  # pylint: disable=broad-except
+        pass
+    infos.append([name, text])
+  out = dict(sn)
+  out["infos"] = infos
+  return out
+
+
 def _strip_event(ev):
-  return {k: v for k, v in ev.items()}
+  out = {}
+  for k, v in ev.items():
+    if k in ("V", "pre", "post", "post_bad") and v is not None:
+      out[k] = [_canon_snap(x) for x in v]
+    else:
+      out[k] = v
+  return out
 
 
 def _dedup(viol):
@@ -383,10 +409,7 @@ def _weak_issuers(arts):
 
 
 def _known_c18(kind, cname, arts, ret, plan):
-  if kind == "rsa" and not arts and ret["exc"] == "IndexError":
-    return "rsa_empty_batch_indexerror"
-  if kind in ("ec", "ecdsa") and ret["exc"] == "ZeroDivisionError":
-    return "ec_congruent_x_zerodivision"
+  # F1 and F2 were repaired in /repo ("fixed:" lines suppress nothing)
   return None
 
 
